@@ -26,7 +26,7 @@ type lline struct {
 	text  string
 	x, y  float64 // baseline origin, PDF user space (y grows upwards)
 	h     float64 // font size = fragment height
-	class string  // hdr-same | hdr-odd | hdr-even | hdr-diff | hdr-sub | hdr-numbered | pagenum | body | body-rep | body-hdrtext | body-num | body-num-near | body-rep-band | body-rep-moving
+	class string  // hdr-same | ftr-same | hdr-odd | hdr-even | hdr-diff | hdr-sub | hdr-numbered | pagenum | body | body-rep | body-hdrtext | body-num | body-num-near | body-rep-band | body-rep-moving
 	page  int     // 0-based
 }
 
@@ -160,6 +160,8 @@ func (d *ldoc) mustDelete(l lline, mode string) bool {
 	switch l.class {
 	case "hdr-same":
 		return mode == "headers" || mode == "both"
+	case "ftr-same":
+		return mode == "footers" || mode == "both"
 	case "pagenum": // the running page number: a footer when printed at the bottom, part of the header when printed at the top
 		if d.side(l) == "top" {
 			return mode == "headers" || mode == "both"
@@ -171,7 +173,29 @@ func (d *ldoc) mustDelete(l lline, mode string) bool {
 
 // ---- generator ---------------------------------------------------------------------------------
 
-var hdrKinds = []string{"none", "same", "oddeven", "different", "same+sub", "numbered"}
+var hdrKinds = []string{"none", "same", "oddeven", "different", "same+sub", "numbered",
+	// running lines that are identical on every page and contain digits (top band) ...
+	"same-1num", "same-2adj", "same-version", "same-2far", "same-pageno",
+	// ... and running lines in the bottom band (below the page number), without and with digits
+	"bottom-same", "bottom-1num", "bottom-2adj", "bottom-2far", "bottom-pageno"}
+
+// runLines: text of the running line of the digit-bearing / bottom header kinds. All are plain repeated lines:
+// one number, two adjacent numbers (year range, version), two numbers far apart, a number equal to a page's number.
+var runLines = map[string]string{
+	"same-1num":     "Annual Report 2024",
+	"same-2adj":     "Annual Report 2023-2024",
+	"same-version":  "Tabula Handbook v1.2",
+	"same-2far":     "Release 2019 Build 4077",
+	"same-pageno":   "Chapter 2 Summary",
+	"bottom-same":   "Acme Internal Memo",
+	"bottom-1num":   "Copyright 2024 Acme",
+	"bottom-2adj":   "Fiscal Year 2023-2024",
+	"bottom-2far":   "Form 8812 Rev 2019",
+	"bottom-pageno": "Appendix 1 Draft",
+}
+
+// extendedHdr: header kinds added after the first version; part (B) runs them on a reduced body / size product.
+func extendedHdr(hdr string) bool { _, ok := runLines[hdr]; return ok }
 
 type pnKind struct{ style, pos string }
 
@@ -221,6 +245,7 @@ const (
 	subDist = 46.0
 	pnDist  = 14.0 // a page number printed at the top sits above the header line
 	ftrY    = 36.0
+	runFtrY = 18.0 // a running footer text line sits below the page number
 	runHdr  = "Running Title Alpha"
 	repLine = "Confidential Draft Zulu"
 )
@@ -301,6 +326,10 @@ func buildDoc(P int, hdr string, pn pnKind, body bodyKind, size string) *ldoc {
 			add("hdr-diff", "Chapter "+animals[p], hdrX, topY(hdrDist))
 		case "numbered":
 			add("hdr-numbered", fmt.Sprintf("Section %d Overview", p+1), hdrX, topY(hdrDist))
+		default:
+			if t, ok := runLines[hdr]; ok && !strings.HasPrefix(hdr, "bottom-") {
+				add("hdr-same", t, hdrX, topY(hdrDist))
+			}
 		}
 		if body.name == "rep-band-top" && p == special {
 			add("body-rep-band", repLine, hdrX, topY(62))
@@ -341,6 +370,9 @@ func buildDoc(P int, hdr string, pn pnKind, body bodyKind, size string) *ldoc {
 		}
 		if pn.style != "none" && pn.pos == "bottom" {
 			add("pagenum", footerText(pn.style, p+1, P), ftrX, ftrY)
+		}
+		if t, ok := runLines[hdr]; ok && strings.HasPrefix(hdr, "bottom-") {
+			add("ftr-same", t, ftrX, runFtrY)
 		}
 		d.pages = append(d.pages, ls)
 	}
